@@ -164,6 +164,14 @@ def rules(ctx, tier):
                 n = ctx.world.vfg.node_of_place(b, pl)
                 if n == ("F", hpath, hfield):
                     r.bad("drop-lock-field", b, "the lock field is dropped separately at %s" % site_where(site))
+    # ... and no longer: no second descriptor shares the advisory lock (a duplicate keeps the directory locked until
+    # whoever holds it lets go - a background thread, say - although every handle has been dropped)
+    for e in ctx.fx.of_kind("FS_DUP"):
+        if "LOCK" in e.classes:
+            r.bad("dup-lock-descriptor", e.site.body,
+                  "the locked descriptor is duplicated at %s: the duplicate shares the advisory lock and can outlive the "
+                  "handle, so the next open fails with AlreadyOpened although no handle exists" % site_where(e.site),
+                  site_where(e.site))
     r.need(2, "handle field, handle behind Arc")
     out.append(r.finish())
 
